@@ -61,7 +61,7 @@ def build(keys, nkeys, form, variant=None):
         t = Table([Vector(list(c), name=nm) for nm, c in cols])
     else:
         from mc import provenance
-        _, t = provenance.table_variant(cols, variant)
+        _, t = provenance.table_variant(cols, variant, flagged=True)
     if form == "name":
         by = [nm for nm, _ in kcols]
     elif form == "column":
